@@ -46,6 +46,9 @@ pub struct Plan {
     pub seed: u64,
     /// mode B: number of owner tasks (0 = mode A)
     pub owners: usize,
+    /// burst mode (c09burst.rs)
+    #[serde(default)]
+    pub burst: bool,
 }
 
 pub fn gen_plan(rng: &mut Rng, tier: &str, conc: bool) -> Plan {
@@ -84,7 +87,7 @@ pub fn gen_plan(rng: &mut Rng, tier: &str, conc: bool) -> Plan {
     let keys = ((cap_pages / 8).max(6) as u64).min(if conc { 48 } else { 64 });
     let factor = 3 + rng.usize(4);
     let n_ops = (cap_pages * factor).min(if tier == "thorough" { 2400 } else { 700 });
-    Plan { cfg, keys, n_ops, no_deletes: no_deletes && simple || no_deletes, gates: rng.chance(2, 3), seed: rng.next(), owners: if conc { 3 + rng.usize(4) } else { 0 } }
+    Plan { cfg, keys, n_ops, no_deletes: no_deletes && simple || no_deletes, gates: rng.chance(2, 3), seed: rng.next(), owners: if conc { 3 + rng.usize(4) } else { 0 }, burst: false }
 }
 
 /// bytes an entry with a value of `size` bytes occupies on the device (entries are page aligned)
@@ -292,6 +295,10 @@ pub struct Outcome {
     pub fifo_pairs: u64,
     pub inconclusive: Vec<String>,
     pub order_hash: u64,
+}
+
+pub async fn bounded_pub<T>(io: &Arc<IoCtl>, what: &str, f: impl std::future::Future<Output = T>) -> Result<T, (bool, String)> {
+    bounded(io, what, f).await
 }
 
 /// Await `f`; if it does not return, decide between stall (device idle for 20 s) and inconclusive.
@@ -850,10 +857,14 @@ pub fn run(seed: u64, tier: &str, shard: usize, nshards: usize) -> ShardResult {
     let mut rng = Rng::derive(seed, 0xC09_000 + shard as u64);
     for i in 0..(total / nshards.max(1)).max(2) {
         let conc = i % 3 == 2;
-        let plan = gen_plan(&mut rng, tier, conc);
+        let burst = i % 8 == 3;
+        let plan = if burst { crate::c09burst::gen_plan(&mut rng) } else { gen_plan(&mut rng, tier, conc) };
+        let plan = Plan { burst, ..plan };
         crate::progress(&json!({"check":"c09","plan":plan}));
         let o = rt.block_on(async {
-            if conc {
+            if burst {
+                crate::c09burst::run_burst(&plan).await
+            } else if conc {
                 run_owners(&plan).await
             } else {
                 run_churn(&plan).await
@@ -861,12 +872,14 @@ pub fn run(seed: u64, tier: &str, shard: usize, nshards: usize) -> ShardResult {
         });
         absorb(&mut res, &plan, o);
     }
+    // a wedged store (stall verdict) may keep tasks that never finish: do not wait for them at teardown
+    rt.shutdown_background();
     res
 }
 
 fn absorb(res: &mut ShardResult, plan: &Plan, o: Outcome) {
     res.evaluations += 1;
-    let mode = if plan.owners > 0 { "owners" } else { "churn" };
+    let mode = if plan.burst { "burst" } else if plan.owners > 0 { "owners" } else { "churn" };
     res.count(&format!("runs_{mode}"), 1);
     res.count("ops", o.ops);
     res.count("lookups", o.lookups);
@@ -906,7 +919,9 @@ pub fn replay(plan: Plan) -> ShardResult {
     let rt = tokio::runtime::Builder::new_multi_thread().worker_threads(4).enable_all().build().unwrap();
     for _ in 0..3 {
         let o = rt.block_on(async {
-            if plan.owners > 0 {
+            if plan.burst {
+                crate::c09burst::run_burst(&plan).await
+            } else if plan.owners > 0 {
                 run_owners(&plan).await
             } else {
                 run_churn(&plan).await
@@ -917,5 +932,6 @@ pub fn replay(plan: Plan) -> ShardResult {
             break;
         }
     }
+    rt.shutdown_background();
     res
 }
